@@ -204,8 +204,13 @@ func c15(c *Ctx) {
 
 	// ---- R-override ----------------------------------------------------------------
 	const stU, stN = 0, 1
+	// terms for the override are built with inlining of controller helpers, so that an extracted
+	// helper returning the configured map reads like the inline type switch
+	tbi := ir.NewTB(c.P.IsRepoFunc, c.P.FuncKey)
+	tbi.InlineMaxBlocks = 24
+	tbi.NoInline = func(f *ssa.Function) bool { return load_FuncPkgPath(f) != PkgCtrl }
 	isOverrideVal := func(v ssa.Value) bool {
-		t := tb.Of(v, nil)
+		t := tbi.Of(v, nil)
 		return t.Has(func(x *ir.Term) bool { return x.Op == "field:PwmMap" })
 	}
 	spec := ir.TSpec{
@@ -258,7 +263,8 @@ func c15(c *Ctx) {
 			for si := range b.Succs {
 				if ir.HasFact(ir.EdgeFacts(b, si), token.NEQ, func(x, y ssa.Value) bool {
 					_, isPhi := x.(*ssa.Phi)
-					return ir.IsNilConst(y) && isPhi && isOverrideVal(x)
+					_, isCall := x.(*ssa.Call)
+					return ir.IsNilConst(y) && (isPhi || isCall) && isOverrideVal(x)
 				}) {
 					es = append(es, edge{b, si})
 				}
@@ -286,6 +292,57 @@ func c15(c *Ctx) {
 	}
 	if nuse == 0 {
 		c.R.Undecided("R-override-use", "none", "controller", "-", "no test of the configured pwmMap found (anchor unresolved)")
+	}
+
+	// ---- R-persist: a measured map is stored before regulation starts / the entry returns ----
+	{
+		const clean, unsaved = 0, 1
+		pspec := ir.TSpec{
+			N: 2,
+			Instr: func(ins ssa.Instruction) []ir.Mask {
+				cc, ok := ins.(ssa.CallInstruction)
+				if !ok {
+					return nil
+				}
+				if isPersistInvoke(cc, "SaveFanPwmMap") {
+					return ir.AllTo(2, clean)
+				}
+				return nil
+			},
+			Callees: func(call ssa.CallInstruction) []*ssa.Function { return c.Callees(call) },
+			NoReturn: func(ins ssa.Instruction) bool { return c.noReturnCall(ins) },
+		}
+		// the sweep itself is the event "unsaved": model it at the call sites of sweep functions
+		inner := pspec.Instr
+		pspec.Instr = func(ins ssa.Instruction) []ir.Mask {
+			if isSweepCall(ins) {
+				return ir.AllTo(2, unsaved)
+			}
+			return inner(ins)
+		}
+		for _, entry := range append(append([]*ssa.Function{}, runs...), inits...) {
+			ts := ir.NewTS(pspec)
+			var bad []string
+			ei := errResultIndex(entry)
+			ts.Run(entry, ir.Bit(clean), func(fn *ssa.Function, ins ssa.Instruction, m ir.Mask) {
+				if !m.Has(unsaved) {
+					return
+				}
+				if cc, ok := ins.(ssa.CallInstruction); ok && ir.CallName(cc) == "(*github.com/oklog/run.Group).Run" {
+					bad = append(bad, "regulation starts at "+c.P.Pos(ins.Pos())+" with a measured but unsaved PWM map")
+				}
+				if r, ok := ins.(*ssa.Return); ok && fn == entry && ei >= 0 && mayBeNilError(r.Results[ei], ir.BlockFacts(r.Block())) {
+					bad = append(bad, "returns successfully at "+c.P.Pos(r.Pos())+" with a measured but unsaved PWM map")
+				}
+			})
+			key := c.FK(entry)
+			if len(bad) > 0 {
+				c.R.Bad("R-persist", key, key, "-", "after sweeping the fan the measured PWM map is not stored (Persistence.SaveFanPwmMap) on every path: the next start has nothing to reuse and sweeps again", bad...)
+			} else {
+				c.R.Ok("R-persist", key, key, c.P.Pos(entry.Pos()), "every path from the sweep to the start of regulation / a successful return passes SaveFanPwmMap")
+			}
+		}
+		c.R.Require("R-persist", 2)
 	}
 
 	// ---- R-data / R-readme --------------------------------------------------------------
